@@ -14,6 +14,12 @@ PROPS_FILE = 'ScnVerif/Props/C08.lean'
 TRANSLATORS: list = []
 
 U64 = 2.0 ** -53
+U32 = 2.0 ** -24
+
+
+def u_res(dt: str) -> float:
+    """unit roundoff of the RESULT of Q_elements_from_wavelength: it has the float dtype of the wavelength"""
+    return U32 if dt == 'float32' else U64
 PI_STR = '3.14159265358979323846264338327950288419716939937510582097494459230781640628620899'
 PI = Fraction(PI_STR)
 Q_ULPS = 16        # |Q_component error| <= Q_ULPS * u * (2 pi / lambda): forward error of k*(b_i/|b_i| - b_f/|b_f|)
@@ -28,13 +34,16 @@ RULE = (
     'degenerate branch; Q vectors random with norm 0.01..100 1/angstrom; split/reassemble: arrays of rank 0..3 with '
     'sizes 0..3, Qy/Qz with permuted dimension order, and mismatching sizes (missing/extra/renamed dimension, '
     'different length) for the DimensionError guard. Distinct = (operation, operand bit patterns / shapes). '
-    f'Tolerances: Q components {Q_ULPS}u*2pi/lambda absolute (cancellation in e_i-e_f is conditioning); '
+    f'Tolerances: Q components {Q_ULPS}u*2pi/lambda absolute with u the unit roundoff of the result (2^-53, or 2^-24 for a float32 '
+    'wavelength, whose result is float32; 16*2^-24 < the 1e-5 single-precision budget; cancellation in e_i-e_f is conditioning); '
     f'hkl: residual |2pi R UB hkl - Q|/|Q| <= {HKL_C}*(s1^2/(s2 s3))*2^-53 and forward error |hkl - hkl_exact| <= '
     f'{HKL_C}*(s1^2/(s2 s3))*2^-53*|inv(R UB)||Q|/2pi, s1>=s2>=s3 the singular values of R*UB, both evaluated in exact rational '
     'arithmetic (hkl_exact = exact solve); U*B within '
     '8u*(|U||B|); split/reassemble bit-exact.'
 )
 ASSUMPTIONS = [
+    'Q_elements_from_wavelength computes in float64 and narrows each component to the float dtype of the wavelength '
+    '(model: qElementsCast with down = Float.toFloat32 / identity; theorems at the identity cast over the reals)',
     'scipp: vector3/linear_transform3 are float64; sc.norm, element-wise vector arithmetic, matrix products and '
     'sc.spatial.inv (closed-form cofactor inverse) round as IEEE double operations in some order (the model fixes '
     'one order; the correspondence allows the derived forward-error bound)',
@@ -355,7 +364,7 @@ def correspond(ctx):
             bfs.append(b)
         groups.append((dt, unit, scalar, lam, bis, bfs, kinds))
         for l, a, b in zip(lam, bis, bfs):
-            lines.append('c08.qel ' + ' '.join(bits(x) for x in (l, *a, *b)))
+            lines.append(('c08.qel32 ' if dt == 'float32' else 'c08.qel ') + ' '.join(bits(x) for x in (l, *a, *b)))
     outs = ctx.driver(lines)
     pos = 0
     for dt, unit, scalar, lam, bis, bfs, kinds in groups:
@@ -368,9 +377,9 @@ def correspond(ctx):
             continue
         vals, meta, _ = res
         exp_sizes = {} if scalar else {'x': len(lam)}
-        # dtype as coded: vector3 is float64 and `2*np.pi / wavelength` promotes, so every component is float64
-        if meta != [('float64', True, exp_sizes)] * 3:
-            ctx.disagree({'op': 'qel', 'dtype': dt, 'unit': unit}, meta, [('float64', True, exp_sizes)] * 3, 'dtype / unit / sizes')
+        # dtype as coded: computed in float64, each component narrowed by as_float_type(., wavelength)
+        if meta != [(dt, True, exp_sizes)] * 3:
+            ctx.disagree({'op': 'qel', 'dtype': dt, 'unit': unit}, meta, [(dt, True, exp_sizes)] * 3, 'dtype / unit / sizes')
         for l, a, b, kd, v, m in zip(lam, bis, bfs, kinds, vals, mo):
             mv_ = [unbits(t) if t != 'nan' else math.nan for t in m.split()]
             ctx.case(('qel', dt, unit, bits(l), tuple(bits(x) for x in (*a, *b))), True,
@@ -379,11 +388,12 @@ def correspond(ctx):
             k = 2 * math.pi / l
             if all(x == y for x, y in zip(v, mv_)):
                 ctx.count('qel:bit-equal')
-            elif all(abs(x - y) <= Q_ULPS * U64 * k for x, y in zip(v, mv_)):
+            elif all(abs(x - y) <= Q_ULPS * U64 * k + (2 * U32 * abs(y) if dt == 'float32' else 0.0) for x, y in zip(v, mv_)):
+                # float64 computation within the derived bound; a float32 result may then round to the neighbour
                 ctx.count('qel:within-tolerance')
             else:
                 ctx.disagree({'op': 'qel', 'lambda': bits(l), 'bi': [bits(x) for x in a], 'bf': [bits(x) for x in b]},
-                             [bits(x) for x in v], m, f'components differ by more than {Q_ULPS}u*2pi/lambda')
+                             [bits(x) for x in v], m, f'components differ by more than {Q_ULPS}u*2pi/lambda (+1 ulp of a float32 result)')
     # --- UB and hkl
     cases, lines = [], []
     for _ in range(ctx.n(3000, 100000)):
@@ -500,7 +510,7 @@ def _check_q_point(lam, dt, unit, bi, bf, got):
     out = []
     scale = Fraction(1)  # result is in 1/unit(lambda) and lambda is given in that unit
     ref, k = exact_q(lam, scale, bi, bf)
-    tol = D(Fraction(Q_ULPS * U64)) * k
+    tol = D(Fraction(Q_ULPS * u_res(dt))) * k   # forward-error bound in the precision of the result
     if not all(math.isfinite(x) for x in got):
         return [('C08:q-nonfinite', f'Q has a non-finite component {got!r} for finite beams and wavelength', {})]
     err = max(abs(D(Fraction(g)) - r) for g, r in zip(got, ref))
@@ -569,7 +579,7 @@ def _oracle_q(ctx, n):
             for key, what, ex in _check_q_point(lam[i], dt, unit, bis[i], bfs[i], got):
                 ctx.violation(key, what, dict(wit, **ex))
             k = D(2 * PI) / D(Fraction(lam[i]))
-            u = D(Fraction(U64))
+            u = D(Fraction(u_res(dt)))
             if not isinstance(res_s, str):
                 d = max(abs(D(Fraction(float(x))) - D(Fraction(y))) for x, y in zip(res_s[0][i], got))
                 if d > 2 * Q_ULPS * u * k:
